@@ -7,6 +7,7 @@ import (
 
 	"github.com/tetratelabs/wazero/verifharness/cfgreplay"
 	"github.com/tetratelabs/wazero/verifharness/fcache"
+	"github.com/tetratelabs/wazero/verifharness/memreplay"
 	"github.com/tetratelabs/wazero/verifharness/registry"
 )
 
@@ -16,6 +17,8 @@ var cmds = map[string]func([]string){
 	"replay-registry":   registry.Replay,
 	"trace-registry":    registry.Trace,
 	"gate-registry":     registry.Gate,
+	"replay-memory":     memreplay.Main,
+	"memory-concurrent": memreplay.Concurrent,
 	"fc-child":          fcache.Child,
 	"fc-replay":         fcache.ReplayProc,
 	"fc-gate":           fcache.ReplayGate,
